@@ -17,6 +17,7 @@ import Y0.Lemmas.FscmEnvLaws
 import Y0.Lemmas.TianProb
 import Y0.Lemmas.IdDen
 import Y0.Lemmas.CtfScm
+import Y0.Lemmas.ScmEnvXWorld
 
 namespace Y0
 namespace Fscm
@@ -488,6 +489,179 @@ theorem toScm_Q (hOK : ToScmOK M card base G) (T : List Name) (hTn : T.Nodup) (h
     ring
   rw [hfun, sumVars_mul_left cS R _ (prL M base R) τ hind,
     sumVars_prL_one hOK R (hLallnd.filter _) (fun n hn => (hRsub n hn).1) τ, mul_one]
+
+/-! ### marginalisation on the functional side, and the theorem -/
+
+theorem doOf_set {X : List Name} {y : Name} (hy : y ∉ X) (ρ : Val) (k : Nat) : doOf X (ρ.set y k) = doOf X ρ := by
+  apply doOf_congr
+  intro x hx
+  have : x ≠ y := fun e => hy (e ▸ hx)
+  rw [Val.set_other _ _ this]
+
+theorem doOf_inRange {X : List Name} {ρ : Val} (h : ∀ x ∈ X, ρ x < card x) : DoInRange card (doOf X ρ) := by
+  intro v x hf
+  have hm := forced_mem hf
+  unfold doOf at hm
+  obtain ⟨y, hy, e⟩ := List.mem_map.mp hm
+  cases e
+  exact h v hy
+
+/-- summing the atoms of the variables `ys` out of a conjunction in the world `do(X := ρ X)` -/
+theorem prob_marg_list (hOK : ToScmOK M card base G) (X : List Name) : ∀ (ys : List Name), ys.Nodup →
+    (∀ y ∈ ys, y ∉ X ∧ y < base) → ∀ (rest : Val → List Conjunct),
+    (∀ y ∈ ys, ∀ ρ k, rest (Val.set ρ y k) = rest ρ) → ∀ ρ : Val, (∀ x ∈ X, ρ x < card x) →
+    sumVars (M.cardS card base) ys
+      (fun ρ1 => prob M ((ys.map fun v => (⟨v, doOf X ρ1, ρ1 v⟩ : Conjunct)) ++ rest ρ1)) ρ = prob M (rest ρ)
+  | [], _, _, rest, _, ρ, _ => by simp [sumVars]
+  | y :: ys, hnd, hys, rest, hrest, ρ, hρ => by
+    rw [List.nodup_cons] at hnd
+    have hy := hys y List.mem_cons_self
+    simp only [sumVars]
+    -- the inner sums, with the atom of `y` moved into the rest
+    have hinner : ∀ ρ1, (∀ x ∈ X, ρ1 x < card x) →
+        sumVars (M.cardS card base) ys
+          (fun ρ2 => prob M (((y :: ys).map fun v => (⟨v, doOf X ρ2, ρ2 v⟩ : Conjunct)) ++ rest ρ2)) ρ1 =
+        prob M ((⟨y, doOf X ρ1, ρ1 y⟩ : Conjunct) :: rest ρ1) := by
+      intro ρ1 hρ1
+      have := prob_marg_list hOK X ys hnd.2 (fun z hz => hys z (List.mem_cons_of_mem _ hz))
+        (fun ρ2 => (⟨y, doOf X ρ2, ρ2 y⟩ : Conjunct) :: rest ρ2)
+        (fun z hz ρ2 k => by
+          have hzX := (hys z (List.mem_cons_of_mem _ hz)).1
+          have hzy : y ≠ z := fun e => hnd.1 (e ▸ hz)
+          rw [doOf_set hzX, Val.set_other _ _ hzy, hrest z (List.mem_cons_of_mem _ hz)]) ρ1 hρ1
+      rw [← this]
+      apply sumVars_congr
+      intro ρ2
+      apply prob_perm
+      rw [List.map_cons, List.cons_append]
+      exact List.perm_middle.symm
+    rw [sumVar_eq_sum]
+    have hterm : ∀ k ∈ Finset.range (M.cardS card base y),
+        sumVars (M.cardS card base) ys
+          (fun ρ2 => prob M (((y :: ys).map fun v => (⟨v, doOf X ρ2, ρ2 v⟩ : Conjunct)) ++ rest ρ2)) (ρ.set y k) =
+        prob M ((⟨y, doOf X ρ, k⟩ : Conjunct) :: rest ρ) := by
+      intro k _
+      rw [hinner (ρ.set y k) (fun x hx => by
+        have : x ≠ y := fun e => hy.1 (e ▸ hx)
+        rw [Val.set_other _ _ this]; exact hρ x hx)]
+      rw [doOf_set hy.1, Val.set_same, hrest y List.mem_cons_self]
+    rw [Finset.sum_congr rfl hterm, cardS_node M card hy.2, ← sumRange_eq_sum]
+    exact prob_marg M y (doOf X ρ) (card y) (rest ρ) (fun u => solve_lt hOK.wf u (doOf_inRange hρ) y)
+
+theorem nodes_nodup (hOK : ToScmOK M card base G) : G.nodes.Nodup :=
+  (hOK.compat.perm.nodup_iff).mp hOK.compat.nodup
+
+theorem mem_nodes_iff (hOK : ToScmOK M card base G) {v : Name} : v ∈ G.nodes ↔ v ∈ M.order :=
+  (hOK.compat.perm.mem_iff).symm
+
+/-- **the induced semi-Markovian model has the interventional distributions of the functional model**, in the form
+"values read off a valuation": for `E ⊆ V ∖ X`,
+`Σ_{V ∖ (X ∪ E)} Q[V ∖ X] (σ)  =  mass{ u | ∀ x ∈ E, solve u (do(X := σ X)) x = σ x }` -/
+theorem fscm_toScm_F (hOK : ToScmOK M card base G) (X E : List Name) (hE : E.Nodup)
+    (hEn : ∀ x ∈ E, x ∈ G.nodes ∧ x ∉ X) (σ : Val) (hσX : ∀ x ∈ X, σ x < card x) :
+    F (M.toScm card base) G X E σ = prob M (E.map fun x => (⟨x, doOf X σ, σ x⟩ : Conjunct)) := by
+  set T := G.nodes.filter (fun v => decide (v ∉ X)) with hT
+  set Fr := G.nodes.filter (fun v => decide (v ∉ X ∧ v ∉ E)) with hFr
+  have hTmem : ∀ v, v ∈ T ↔ v ∈ M.order ∧ v ∉ X := by
+    intro v
+    rw [hT, List.mem_filter, mem_nodes_iff hOK]
+    simp
+  have hTn : T.Nodup := (nodes_nodup hOK).filter _
+  have hQ : ∀ ρ, (M.toScm card base).Q T ρ = prob M (T.map fun v => (⟨v, doOf X ρ, ρ v⟩ : Conjunct)) := by
+    intro ρ
+    rw [toScm_Q hOK T hTn (fun v hv => ((hTmem v).mp hv).1) ρ, prob_full hOK X T hTmem ρ]
+  show sumVars (M.toScm card base).card Fr ((M.toScm card base).Q T) σ = _
+  rw [show (M.toScm card base).Q T = fun ρ => prob M (T.map fun v => (⟨v, doOf X ρ, ρ v⟩ : Conjunct)) from funext hQ]
+  -- T is Fr ++ E up to order
+  have hFrn : Fr.Nodup := (nodes_nodup hOK).filter _
+  have hperm : T.Perm (Fr ++ E) := by
+    rw [List.perm_ext_iff_of_nodup hTn]
+    · intro v
+      simp only [hT, hFr, List.mem_append, List.mem_filter, decide_eq_true_eq]
+      constructor
+      · rintro ⟨h1, h2⟩
+        by_cases hvE : v ∈ E
+        · exact Or.inr hvE
+        · exact Or.inl ⟨h1, h2, hvE⟩
+      · rintro (⟨h1, h2, _⟩ | h)
+        · exact ⟨h1, h2⟩
+        · exact hEn v h
+    · rw [List.nodup_append]
+      refine ⟨hFrn, hE, ?_⟩
+      intro a ha b hb e
+      subst e
+      rw [hFr, List.mem_filter] at ha
+      simp only [decide_eq_true_eq] at ha
+      exact ha.2.2 hb
+  have hstep : ∀ ρ, prob M (T.map fun v => (⟨v, doOf X ρ, ρ v⟩ : Conjunct)) =
+      prob M ((Fr.map fun v => (⟨v, doOf X ρ, ρ v⟩ : Conjunct)) ++ (E.map fun x => (⟨x, doOf X ρ, ρ x⟩ : Conjunct))) := by
+    intro ρ
+    rw [← List.map_append]
+    exact prob_perm M (hperm.map _)
+  rw [show (fun ρ => prob M (T.map fun v => (⟨v, doOf X ρ, ρ v⟩ : Conjunct))) = fun ρ =>
+      prob M ((Fr.map fun v => (⟨v, doOf X ρ, ρ v⟩ : Conjunct)) ++ (E.map fun x => (⟨x, doOf X ρ, ρ x⟩ : Conjunct))) from
+    funext hstep]
+  have hFrmem : ∀ y ∈ Fr, y ∈ G.nodes ∧ y ∉ X ∧ y ∉ E := by
+    intro y hy
+    rw [hFr, List.mem_filter] at hy
+    simpa using hy
+  exact prob_marg_list hOK X Fr hFrn
+    (fun y hy => ⟨(hFrmem y hy).2.1, hOK.base_gt y ((mem_nodes_iff hOK).mp (hFrmem y hy).1)⟩)
+    (fun ρ => E.map fun x => (⟨x, doOf X ρ, ρ x⟩ : Conjunct))
+    (fun y hy ρ k => by
+      apply List.map_congr_left
+      intro x hx
+      have hxy : x ≠ y := fun e => (hFrmem y hy).2.2 (e ▸ hx)
+      rw [doOf_set (hFrmem y hy).2.1, Val.set_other _ _ hxy]) σ hσX
+
+/-- **`fscm_toScm_prDo`**: for a well-formed world `dos` and a partial assignment `ev` of distinct non-intervened nodes,
+the truncated-factorisation probability in the induced semi-Markovian model is the single-world probability of the
+functional model (the value of `M.fscmEnv` on the atoms `X_dos = k`, `(X, k) ∈ ev`) -/
+theorem fscm_toScm_prDo (hOK : ToScmOK M card base G) (dos ev : List (Name × Nat)) (hdv : DoValid card dos)
+    (hevn : (ev.map (·.1)).Nodup) (hev : ∀ p ∈ ev, p.1 ∈ G.nodes ∧ p.1 ∉ dos.map (·.1)) :
+    (M.toScm card base).prDo G dos ev = (M.fscmEnv card).pr none (ev.map fun p => ⟨p.1, dos, p.2⟩) := by
+  have hf : Functional (dos ++ ev) := by
+    intro p hp q hq e
+    rcases List.mem_append.mp hp with hp1 | hp1 <;> rcases List.mem_append.mp hq with hq1 | hq1
+    · exact hdv.2 p hp1 q hq1 e
+    · exact absurd (List.mem_map.mpr ⟨p, hp1, e⟩) (hev q hq1).2
+    · exact absurd (List.mem_map.mpr ⟨q, hq1, e.symm⟩) (hev p hp1).2
+    · have : p = q := List.inj_on_of_nodup_map hevn hp1 hq1 e
+      rw [this]
+  have hc : Scm.consistent (dos ++ ev) = true := (Scm.consistent_iff _).mpr hf
+  set σ₀ := Val.setMany (fun _ => 0) (dos ++ ev) with hσ₀
+  have hread : ∀ a ∈ dos ++ ev, a.2 = σ₀ a.1 := by
+    intro a ha
+    rw [hσ₀, setMany_agrees (Scm.rd (dos ++ ev)) (dos ++ ev) (fun _ => 0) a.1 (Scm.rd_reads hf)
+      (Or.inl (List.mem_map_of_mem ha))]
+    exact Scm.rd_reads hf a ha
+  have hprDo : (M.toScm card base).prDo G dos ev = F (M.toScm card base) G (dos.map (·.1)) (ev.map (·.1)) σ₀ := by
+    unfold Scm.prDo
+    rw [hc]
+    rfl
+  rw [hprDo, fscm_toScm_F hOK (dos.map (·.1)) (ev.map (·.1)) hevn
+    (fun x hx => by
+      obtain ⟨p, hp, rfl⟩ := List.mem_map.mp hx
+      exact hev p hp) σ₀
+    (fun x hx => by
+      obtain ⟨p, hp, rfl⟩ := List.mem_map.mp hx
+      rw [← hread p (List.mem_append_left _ hp)]
+      exact hdv.1 p hp)]
+  rw [fscmEnv_pr]
+  congr 1
+  rw [List.map_map, List.map_map]
+  apply List.map_congr_left
+  intro p hp
+  have hdo : doOf (dos.map (·.1)) σ₀ = dos := by
+    unfold doOf
+    rw [List.map_map]
+    conv_rhs => rw [← List.map_id dos]
+    apply List.map_congr_left
+    intro q hq
+    simp only [Function.comp_apply, id]
+    rw [← hread q (List.mem_append_left _ hq)]
+  simp only [Function.comp_apply, atomConj, normDo_of_valid hdv, hdo]
+  rw [← hread p (List.mem_append_right _ hp)]
 
 end Fscm
 end Y0
